@@ -2,6 +2,7 @@ package props
 
 import (
 	"bytes"
+	"math"
 	"context"
 	"encoding/json"
 	"fmt"
@@ -124,7 +125,7 @@ func genC10Op(rt *rapid.T, kinds []string) C10Op {
 		op.Ev = genC10Ev(rt)
 	case "read":
 		op.From = rapid.IntRange(-1, 40).Draw(rt, "from")
-		op.Limit = rapid.SampledFrom([]int{-1, 0, 0, 1, 2, 3, 7, 1000}).Draw(rt, "limit")
+		op.Limit = rapid.SampledFrom([]int{-1, 0, 0, 1, 2, 3, 7, 1000, math.MaxInt32, math.MaxInt}).Draw(rt, "limit")
 	case "stream":
 		op.From = rapid.IntRange(-1, 40).Draw(rt, "from")
 		op.Stop = rapid.IntRange(0, 4).Draw(rt, "stop")
